@@ -692,26 +692,26 @@ def c19(ctx, rep):
                 late.append(path.describe()[-100:])
     rep.ob("C19.no-late-rejection", "anonymize_files", not late, "anonymize_files raises after it has started writing: %s" % late[:2], W(f_files), key="C19.no-late-rejection|anonymize_files")
     # 2. nothing enabled => nothing written
-    feature_terms = None
-    for path, call in reach[:1]:
-        for t, pol in path.atoms():
-            if M.is_call(t) and t[1] == ("builtin", "any") and t[2] and t[2][0][0] in ("list", "tuple"):
-                feature_terms = (t[2][0][1], pol)
     want_feats = {"as_numbers", "sensitive_words", "anonymize_passwords", "anonymize_ips", "undo"}
     got = set()
-    if feature_terms:
-        for t in feature_terms[0]:
-            s = show(t)
-            got.add(s.split(".")[-1].rstrip(")") if "." in s else s.split("(")[0])
-            if t[0] in ("ifexp",):
-                got.add("as_numbers" if "as_numbers" in s else "sensitive_words" if "sensitive_words" in s else s)
-        norm = set()
-        for t in feature_terms[0]:
-            s = show(t)
-            for wname in want_feats:
-                if wname in s:
-                    norm.add(wname)
-        got = norm
+    feature_terms = None
+    all_true = True
+    for path, call in reach:
+        found = False
+        for t, pol in path.atoms():
+            if M.is_call(t) and t[1] == ("builtin", "any") and t[2] and t[2][0][0] in ("list", "tuple"):
+                found = True
+                feature_terms = (t[2][0][1], pol)
+                all_true = all_true and pol
+                for x in t[2][0][1]:
+                    sx = show(x)
+                    for wname in want_feats:
+                        if wname in sx:
+                            got.add(wname)
+        if not found:
+            all_true = False
+    if feature_terms is not None:
+        feature_terms = (feature_terms[0], all_true)
     rep.ob("C19.nothing-enabled-nothing-written", "main", feature_terms is not None and feature_terms[1] is True and got == want_feats,
            "anonymize_files is called only when any(%s) holds; expected exactly the five feature options %s" % (sorted(got), sorted(want_feats)), W(f_main), key="C19.nothing-enabled-nothing-written|main")
     no_call = [pth for pth in fp.paths if pth.feasible() and pth.kind != "raise" and not any(pth is r[0] for r in reach)]
